@@ -31,7 +31,8 @@ Proof.
   - inversion H. rewrite ftv_leaf. apply incl_nil_l.
   - apply bind_ok in H as (x & Hx & H). inversion H. cbn. rewrite app_nil_r. auto.
   - apply bind_ok in H as (x & Hx & H). inversion H. cbn. auto.
-  - apply bind_ok in H as (x & Hx & H). inversion H. eapply incl_tran; [apply ftv_array | auto].
+  - destruct n as [|n']; [inversion H; apply incl_nil_l|].
+    apply bind_ok in H as (x & Hx & H). inversion H. eapply incl_tran; [apply ftv_array | auto].
   - apply bind_ok in H as (l & Hl & H). inversion H. cbn [ftv].
     apply omap_list_ok in Hl. apply Forall2_flat_map_incl.
     eapply Forall2_impl_in; [apply (Forall2_Forall_l _ _ _ _ IH Hl)|]. cbn. intros x y _ [Hp Hq]. auto.
@@ -63,7 +64,8 @@ Proof.
   - inversion H. rewrite ftv_leaf. apply incl_nil_l.
   - apply bind_ok in H as (x & Hx & H). inversion H. cbn. rewrite app_nil_r. auto.
   - apply bind_ok in H as (x & Hx & H). inversion H. cbn. auto.
-  - apply bind_ok in H as (x & Hx & H). inversion H. eapply incl_tran; [apply ftv_array | auto].
+  - destruct n as [|n']; [inversion H; apply incl_nil_l|].
+    apply bind_ok in H as (x & Hx & H). inversion H. eapply incl_tran; [apply ftv_array | auto].
   - apply bind_ok in H as (x & Hx & H). apply bind_ok in H as (y & Hy & H). inversion H. cbn.
     apply incl_app; [apply incl_appl | apply incl_appr]; auto.
   - auto.
